@@ -23,10 +23,10 @@ type KVExec struct {
 	Insts    map[string]*KVModel // instance name -> model
 	InstRepo map[string]int
 	InstType map[string]string
-	RepoRoot map[int]int // repo index -> root version index
+	RepoRoot map[int]int         // repo index -> root version index
 	MutLog   map[string][]string // "inst|version" -> acknowledged mutations in order ("postkv k" / "delete k")
-	Skipped  int         // ops skipped because they referenced something absent (after shrinking)
-	Rejected int         // set-up ops DVID refused although the generator's model allowed them
+	Skipped  int                 // ops skipped because they referenced something absent (after shrinking)
+	Rejected int                 // set-up ops DVID refused although the generator's model allowed them
 }
 
 func NewKVExec(w *drv.World) *KVExec {
